@@ -319,6 +319,15 @@ def editOpOf (op extra : String) : Option EditOp :=
   | ["cleartermedgecomments"] => some .clearTermEdgeComments
   | ["scalesupports", q] => (parseRat? q).map .scaleSupports
   | ["roundsupports", "0"] => some .roundSupports0
+  | ["collapseclade", strict, name, names] =>
+    match unescape name, parseStrList names with
+    | some n, some l => some (.collapseClade (flagOf strict) n l)
+    | _, _ => none
+  | ["annotate", c, lines] => (((lines.splitOn "+").filter (· ≠ "")).mapM parseStrList).map (.annotate (flagOf c))
+  | ["addbip", p, slots, l, sp] =>
+    match (parsePath p).bind id, ((slots.splitOn ",").filter (· ≠ "")).mapM String.toNat?, parseRat? l, parseRat? sp with
+    | some q, some S, some len, some sup => some (.addBip q S len sup)
+    | _, _, _, _ => none
   | ["rename", olds, news] =>
     match parseStrList olds, parseStrList news with
     | some o, some n => some (.rename (o.zip n))
